@@ -44,10 +44,34 @@ func genC02(r *h.Rng, tier string, idx int) *h.Plan {
 	n := r.Range(5, 22)
 	var facts []map[string]interface{}
 	var patterns []interface{}
+	// array rewrites: an id is rewritten with a value that differs from the stored one
+	// only inside an array (order, or one element replaced at equal length): get returns
+	// the value last written, a search binds the array last written
+	arrays := r.P(1, 5)
+	if arrays {
+		p.Cfg["mode"] = "arrayrewrites"
+		ids = ids[:3]
+	}
+	genArr := func() map[string]interface{} {
+		dom := []string{"a", "b", "c"}
+		k := r.Range(2, 3)
+		arr := make([]interface{}, k)
+		for j := range arr {
+			arr[j] = r.Pick(dom)
+		}
+		f := map[string]interface{}{"route": arr, "kind": "trip"}
+		if r.P(1, 3) {
+			f["via"] = map[string]interface{}{"stops": []interface{}{r.Pick(dom), r.Pick(dom)}}
+		}
+		return f
+	}
 	for i := 0; i < n; i++ {
 		switch r.Weighted([]int{10, 4, 2, 3, 1, 1}) {
 		case 0:
 			f := h.GenFact(r, o)
+			if arrays && r.P(3, 4) {
+				f = genArr()
+			}
 			facts = append(facts, f)
 			id := r.Pick(ids)
 			if r.P(1, 5) {
@@ -70,10 +94,27 @@ func genC02(r *h.Rng, tier string, idx int) *h.Plan {
 			p.Ops = append(p.Ops, h.Op{K: "clear", Loc: "L"})
 		}
 	}
+	if r.P(1, 12) {
+		// many generated ids in one run: "omitted ids are generated fresh and
+		// unique" is a statement about every id the process hands out, and a
+		// generator that repeats itself every so many calls shows within one run
+		// whatever its phase is when the run starts
+		p.Cfg["mode2"] = "manyids"
+		for i := 0; i < 40; i++ {
+			p.Ops = append(p.Ops, h.Op{K: "addfact", Loc: "L", Id: "", J: map[string]interface{}{"gen": float64(i % 3)}})
+			if i%8 == 7 {
+				p.Ops = append(p.Ops, h.Op{K: "clear", Loc: "L"})
+			}
+		}
+	}
 	// battery patterns derived from the facts of the plan
 	for i := 0; i < 5 && len(facts) > 0; i++ {
 		po := &h.PatOpts{VarP: r.Range(1, 6), DropP: r.Range(0, 6), Perturb: r.P(1, 6), PropVar: !inject && r.P(1, 5), Reuse: depth == 0}
 		patterns = append(patterns, h.GenPatternFrom(r, facts[r.Intn(len(facts))], po))
+	}
+	if arrays {
+		patterns = append(patterns, map[string]interface{}{"route": "?r"}, map[string]interface{}{"route": []interface{}{r.Pick([]string{"a", "b", "c"})}},
+			map[string]interface{}{"route": []interface{}{"?x"}})
 	}
 	if r.P(1, 3) {
 		patterns = append(patterns, map[string]interface{}{})
